@@ -603,17 +603,47 @@ func runSpecCase(kind string, state uint64, res *hlib.Result) {
 	}
 	sig := specSig(d)
 	// Attribute to eviction if limited caches were in use and the same case passes with unlimited ones.
+	// The two listed mechanisms (cache.go) are recognised conservatively from what the case could have
+	// built: D2b needs a node capacity below 2*height+1 of the trie over every key the case generated
+	// (height is monotone in the key set, and no write dereferences more than 2*height nodes); D1b
+	// needs an embedded leaf, i.e. a key that is a proper prefix of another one.
 	scratch := hlib.NewResult("scratch", 0)
 	limited := limitedCapsUsed
+	nodeCap := smallestNodeCapUsed
+	universe := keyUniverse
 	forceCaps = "all0"
 	if d0, _ := runSpecOnce(kind, state, scratch); limited && d0 == "" {
 		forceCaps = "node0"
-		if d1, _ := runSpecOnce(kind, state, scratch); d1 != "" {
-			sig = "mkvs-evict-value-cache"
-		} else {
-			sig = "mkvs-evict-node-cache"
+		dn, _ := runSpecOnce(kind, state, scratch)
+		forceCaps = "val0"
+		dv, _ := runSpecOnce(kind, state, scratch)
+		h, _ := trieShape(universe)
+		sn, sv := sigNodeSufficient, sigValueOther
+		if nodeCap > 0 && nodeCap < uint64(2*h+1) {
+			sn = sigNodeBelowNeed
 		}
-		d = sig + " (the failure disappears with unlimited caches): " + d
+		if hasPrefixKey(universe) {
+			sv = sigValueEmbedded
+		}
+		switch {
+		case dn != "" && dv == "":
+			sig = sv
+		case dn == "" && dv != "":
+			sig = sn
+		case dn != "" && dv != "":
+			sig = sn
+			if sn == sigNodeBelowNeed && sv == sigValueOther {
+				sig = sv
+			}
+		default:
+			sig = sigNodeSufficient
+			if sn == sigNodeBelowNeed {
+				sig = sn
+			} else if sv == sigValueEmbedded {
+				sig = sv
+			}
+		}
+		d = sig + " (the failure disappears with unlimited caches; " + describeEviction(sig) + "): " + d
 	}
 	forceCaps = ""
 	c := []string{fmt.Sprintf("spec %s %d", kind, state)}
@@ -625,6 +655,8 @@ func runSpecCase(kind string, state uint64, res *hlib.Result) {
 
 func runSpecOnce(kind string, state uint64, res *hlib.Result) (d string, trace []string) {
 	limitedCapsUsed = false
+	smallestNodeCapUsed = 0
+	keyUniverse = nil
 	r := hlib.FromState(state)
 	func() {
 		defer func() {
